@@ -40,6 +40,7 @@ import XotModel.Lemmas.FspecFrameComposite
 import XotModel.Lemmas.FspecFrameReplace
 import XotModel.Lemmas.FparseHistStep
 import XotModel.Lemmas.ParseWitness
+import XotModel.Lemmas.FframeGeneralAll
 
 namespace XotModel.Props
 open XotModel XotModel.Spec
@@ -1559,5 +1560,127 @@ example : let s := (PStore.init Env.fresh).run c05FullCalls
     (s.forest.ctx? 1).map HTree.Ctx.shape = some (0, [], .element 2, []) ∧
     ((s.step (.api (.call (.append 1 2)))).forest.ctx? 1).map HTree.Ctx.shape = some (0, [], .element 2, []) := by
   decide +kernel
+
+end XotModel.Props
+
+
+/-! # ================================================================================================
+    # ONE GENERAL CHILD-LIST FRAME for the extended calls (branch wt-framegen)
+    # ================================================================================================
+
+  The frames above are stated per call, each in its own shape, most of them for `ctx?` of a node whose PARENT is
+  not touched.  `C05_frame_general` is ONE statement over the extended calls `Forest.XCall`, in the `get?`-of-the-node
+  form: `Forest.XCall.writtenParents f c` (Model/FframeSpec.lean) lists the handles whose child list or own value
+  the call may change — old and new parent of a moved node with the text children that consolidation may merge, the
+  moved node itself when it is a text node, the node for setters, the element and its entry nodes for map updates,
+  the wrapper, its parent and the text children of both for element_unwrap,
+  the whole subtree for create_missing_prefixes / deduplicate_namespaces / remove_insignificant_whitespace, nothing
+  for node creation and the clones.  Every OTHER live node that is not inside a removed subtree
+  (`removedHandles`) and not inside the moved subtree (`movedSubtree`) is live afterwards with the same value and
+  the same children (same handles, same order: `Forest.kidHandles`), and keeps its parent when the parent is such a
+  node too.
+
+  Domain (`XCall.framed`): the nine structural calls append, prepend, insert_after, insert_before, detach, remove,
+  replace, element_wrap, element_unwrap; clone_node, clone_with_prefixes; map insert and map remove;
+  text_content_mut().set(); the four value setters; node creation; set_text_consolidation.  NOT in the domain
+  (`writtenParents` is defined for them, the frame is not proved): any_append, append of an entry node, map clear,
+  remove_insignificant_whitespace, create_missing_prefixes, deduplicate_namespaces.
+  Not stated: the nodes strictly inside the moved subtree (they keep value and children too); a parentless node
+  staying parentless. -/
+
+namespace XotModel.Props
+open XotModel Spec
+
+/-- ⟦C05_frame_general⟧ **No other node is created, lost, reordered or altered** — one statement for the calls of
+    the domain `XCall.framed`.  Every forest with the invariant, every call with live arguments that answers `ok`,
+    every live node `h` outside `writtenParents`, outside the removed subtree and outside the moved subtree: `h` is
+    live afterwards, has the same value and the same children (the same handles in the same order); and if its
+    parent `p` is such a node too, `p` is still its parent. -/
+theorem C05_frame_general {s : Store} {c : Forest.XCall} (inv : s.forest.Inv) (hw : c.wellKinded)
+    (hf : c.framed = true) (hla : c.liveArgs s.forest) (hok : (c.run s).2 = .ok)
+    {h : Nat} (hl : s.forest.isLive h = true)
+    (hnw : h ∉ c.writtenParents s.forest) (hnr : h ∉ c.removedHandles s.forest)
+    (hnm : h ∉ c.movedSubtree s.forest) :
+    (c.run s).1.forest.isLive h = true ∧
+    (c.run s).1.forest.value? h = s.forest.value? h ∧
+    (c.run s).1.forest.kidHandles h = s.forest.kidHandles h ∧
+    (∀ p, s.forest.parent? h = some p → p ∉ c.writtenParents s.forest → p ∉ c.removedHandles s.forest →
+      p ∉ c.movedSubtree s.forest → (c.run s).1.forest.parent? h = some p) := by
+  have fr := frame_general inv hw hf hla hok hl hnw hnr hnm
+  refine ⟨fr.live, fr.value, fr.kids, fun p hp h1 h2 h3 => ?_⟩
+  have inv' : (c.run s).1.forest.Inv := Store.xstep_inv inv c hw
+  have hk := kid_of_parent? inv.nodup hp
+  have hpl : s.forest.isLive p = true := by
+    unfold Forest.kidHandles at hk
+    unfold Forest.isLive
+    cases hg : s.forest.get? p with
+    | none => rw [hg] at hk; cases hk
+    | some t => rfl
+  exact parent_of_frameAt inv.nodup inv'.nodup hp (frame_general inv hw hf hla hok hpl h1 h2 h3)
+
+/-- The setters, node creation and `set_text_consolidation`, whatever they answer: every live node other than the
+    one written keeps value, children AND parent (no condition on the parent). -/
+theorem C05_frame_general_simple {s : Store} {c : Forest.XCall} (inv : s.forest.Inv) (hs : simpleCall c = true)
+    {h : Nat} (hl : s.forest.isLive h = true) (hnw : h ∉ c.writtenParents s.forest) :
+    c.framed = true ∧
+    (c.run s).1.forest.isLive h = true ∧
+    (c.run s).1.forest.value? h = s.forest.value? h ∧
+    (c.run s).1.forest.kidHandles h = s.forest.kidHandles h ∧
+    (c.run s).1.forest.parent? h = s.forest.parent? h := by
+  obtain ⟨fr, hp⟩ := frame_general_framed inv hs hl hnw
+  exact ⟨framed_of_simpleCall hs, fr.live, fr.value, fr.kids, hp⟩
+
+/-- Non-vacuity on `frameWitness` (adjacent text nodes; `<e>w x <u>i j<k/>m</u> y z <v/></e>`, the parentless text
+    `r` = 11, a second tree): `append(v, r)` — a text node appended to the element `v` = 10.  Written: `v` and `r`.
+    The SIBLING element `u` = 3 and the common parent `e` = 0 are framed: same value, same children, `u` keeps the
+    parent `e`; `detach(u)` merges `x` and `y`: written are `e` and its text children, `k` = 6 inside `u` is in the
+    moved subtree, the element `h` = 13 of the other tree is framed. -/
+example :
+    let s : Store := ⟨frameWitness, Env.fresh⟩
+    let c : Forest.XCall := .call (.append 10 11)
+    s.forest.inv = true ∧ c.framed = true ∧ (c.run s).2 = .ok ∧
+    c.writtenParents s.forest = [10, 11] ∧ c.removedHandles s.forest = [] ∧ c.movedSubtree s.forest = [11] ∧
+    s.forest.kidHandles 3 = [4, 5, 6, 7] ∧ (c.run s).1.forest.kidHandles 3 = [4, 5, 6, 7] ∧
+    s.forest.kidHandles 0 = [1, 2, 3, 8, 9, 10] ∧ (c.run s).1.forest.kidHandles 0 = [1, 2, 3, 8, 9, 10] ∧
+    (c.run s).1.forest.parent? 3 = some 0 ∧ (c.run s).1.forest.kidHandles 10 = [11] ∧
+    (Forest.XCall.call (.detach 3)).writtenParents s.forest = [0, 1, 2, 8, 9] ∧
+    (Forest.XCall.call (.detach 3)).movedSubtree s.forest = [3, 4, 5, 6, 7] ∧
+    ((Forest.XCall.call (.detach 3)).run s).1.forest.kidHandles 12 = [13, 14] ∧
+    ((Forest.XCall.call (.detach 3)).run s).1.forest.kidHandles 0 = [1, 2, 9, 10] := by
+  decide +kernel
+
+/-- Non-vacuity, the other structural calls on `frameWitness`: `replace(v, r)` (10 by the parentless text 11, merged
+    into `z`): written are `e`, its text children and `r`; `v` is removed; the sibling element `u` = 3 and the other
+    tree keep their children.  `element_unwrap(u)`: written are `u`, its text children `i j m`, `e` and its text
+    children; the other tree keeps its children, `e` gets the normal children of `u`. -/
+example :
+    let s : Store := ⟨frameWitness, Env.fresh⟩
+    let c : Forest.XCall := .call (.replace 10 11)
+    let d : Forest.XCall := .call (.elementUnwrap 3)
+    c.framed = true ∧ (c.run s).2 = .ok ∧ c.writtenParents s.forest = [0, 1, 2, 8, 9, 11] ∧
+    c.removedHandles s.forest = [10] ∧ c.movedSubtree s.forest = [11] ∧
+    (c.run s).1.forest.kidHandles 3 = [4, 5, 6, 7] ∧ (c.run s).1.forest.kidHandles 12 = [13, 14] ∧
+    (c.run s).1.forest.value? 3 = s.forest.value? 3 ∧
+    d.framed = true ∧ (d.run s).2 = .ok ∧ d.writtenParents s.forest = [3, 4, 5, 7, 0, 1, 2, 8, 9] ∧
+    d.removedHandles s.forest = [3] ∧
+    (d.run s).1.forest.kidHandles 12 = [13, 14] ∧ (d.run s).1.forest.kidHandles 6 = [] ∧
+    (d.run s).1.forest.kidHandles 0 = [1, 2, 5, 6, 7, 9, 10] := by
+  decide +kernel
+
+/-- ⟦C05_reachable_frame_general_full⟧ … on every store a history of parses and API calls reaches from
+    `Xot::new()`: no hypothesis on the invariant (`C04_reach_full`). -/
+theorem C05_reachable_frame_general_full (env : Env) (cs : List PCall) (hw : ∀ c ∈ cs, c.wellKinded)
+    (c : Forest.XCall) (hwc : c.wellKinded) (hf : c.framed = true) :
+    let s := ((PStore.init env).run cs).store
+    c.liveArgs s.forest → (c.run s).2 = .ok →
+    ∀ h, s.forest.isLive h = true → h ∉ c.writtenParents s.forest → h ∉ c.removedHandles s.forest →
+      h ∉ c.movedSubtree s.forest →
+      (c.run s).1.forest.isLive h = true ∧
+      (c.run s).1.forest.value? h = s.forest.value? h ∧
+      (c.run s).1.forest.kidHandles h = s.forest.kidHandles h := by
+  intro s hla hok h hl h1 h2 h3
+  have inv : s.forest.Inv := PStore.fph_run_inv cs (PStore.fph_init_inv env) hw
+  obtain ⟨a, b, c', _⟩ := C05_frame_general inv hwc hf hla hok hl h1 h2 h3
+  exact ⟨a, b, c'⟩
 
 end XotModel.Props
